@@ -106,6 +106,16 @@ def impl_replay(job):
             used, _, under = brandom.py_verif_script_status()
             brandom.py_verif_script(None)
             aux, aux2 = parts[0], parts[1]
+            # "split between the two parts": two queues, each with its own storage - an entry added to one part afterwards is
+            # not pending in the other, nor in the original
+            if aux is aux2 or aux is q or aux2 is q:
+                return {"ok": False, "step": i, "op": op, "what": "the two parts of a partition (or a part and the original) are one and the same queue object"}
+            t_probe = aux.py_get_next_queue_time()
+            b2_before, q_before = _obs(aux2, nr, nc), _obs(q, nr, nc)
+            aux.py_add_reaction(t_probe, 0, 3.0)
+            if _obs(aux2, nr, nc) != b2_before or _obs(q, nr, nc) != q_before:
+                return {"ok": False, "step": i, "op": op, "what": "an entry added to one part of a partition is pending in the other part / the original: storage is shared"}
+            aux.py_add_reaction(t_probe, 0, -3.0)
             if used != total or under:
                 return {"ok": False, "step": i, "op": op, "what": "partition consumed %d draws for %d queued occurrences" % (used, total)}
             # property level: cell-wise split, original unchanged
